@@ -252,7 +252,11 @@ func (r *Runner) run(ctx *lcontext.Context, main *resolver.VCL, mode RunMode) (*
 
 			// Store all but ignored linter errors
 			if r.config.Json && severity != linter.IGNORE {
-				r.lintErrors[le.Token.File] = append(r.lintErrors[le.Token.File], le)
+				// list the error with the severity it is counted with (after overrides),
+				// otherwise the entries of the document contradict its Errors/Warnings/Infos
+				listed := *le
+				listed.Severity = severity
+				r.lintErrors[le.Token.File] = append(r.lintErrors[le.Token.File], &listed)
 			}
 			r.printLinterError(r.lexers[main.Name], severity, le)
 		}
